@@ -26,9 +26,9 @@ LEVEL_RULE = (
 ASSUMPTIONS = [
     "closed-shell relation tested with exactly equal channels; polarised relations with (0.55 D1, 0.45 D2), D1/D2 positive definite",
     "relation (c) only for models that are separable by construction: SEP spin mode, exchange-type baselines, no correlation in the semilocal mix",
-    "tolerance 2e-11 relative (measured 4e-15 on the unchanged tree): only summation order may differ between the two spin paths",
+    "tolerance 5e-10 relative (measured <= 7e-11 on the unchanged tree over the thorough lattice): only summation order may differ between the two spin paths",
 ]
-TOL = 2e-11
+TOL = 5e-10  # thorough tier measured up to 7e-11 (He, SDMX/SADM families): pure summation-order noise
 
 from checks import c01 as _c01  # noqa: E402  (shares the lattice dimensions and the builder)
 
@@ -108,6 +108,11 @@ def run_e2e(case):
     # s^2 / alpha at rho < 1e-6, which are (deliberately, C08) not spin-scaling invariant: measured
     # 1.1e-9 relative on the unchanged tree; such models are compared at 1e-7 instead of 2e-11.
     TOL = 1e-7 if case["base"].split("/")[0].replace("x:", "") == "ONE" else globals()["TOL"]
+    if case["base"].startswith("x:"):
+        # libxc-backed baselines: libxc applies its density threshold per spin channel, so the polarised and the
+        # unpolarised evaluation treat the points between the two thresholds differently; measured <= 1.3e-9 relative
+        # on the molecule with the diffuse shell (thorough lattice), 3e-11 elsewhere
+        TOL = max(TOL, 5e-9)
     c1 = dict(case, nspin=1, dm="D1")
     c2 = dict(case, nspin=2, dm="D1")
     mol, ks1, d1 = _c01.build(c1)
